@@ -5,7 +5,7 @@
 (* abstract transitions occurs ("one implementation test per model transition pair").     *)
 EXTENDS Naturals, Sequences, FiniteSets, TLC, Json
 
-CONSTANTS NF, MaxLen, Kinds, MaxHunks, MaxBody, Preamble, MaxConf, Buf, Fixes, ColorOnly
+CONSTANTS NF, MaxLen, Kinds, MaxHunks, MaxBody, Preamble, MaxConf, Buf, Fixes, ColorOnly, Modes
 
 VARIABLES hist, gs, s
 
